@@ -32,6 +32,18 @@ def _write(out: str, col) -> None:
     os._exit(0)
 
 
+def ensure_atheris() -> None:
+    """Install atheris from the offline wheelhouse into /verif/.deps when MANIFEST.setup_cmd has not done so (called from plan())."""
+    import subprocess
+
+    root = os.path.dirname(os.path.dirname(os.path.dirname(os.path.abspath(__file__))))
+    deps = os.path.join(root, ".deps")
+    if os.path.isdir(os.path.join(deps, "atheris")):
+        return
+    subprocess.run([sys.executable, "-m", "pip", "install", "--no-index", "--find-links", "/opt/veriftools/wheels", "--target", deps, "atheris"],
+                   stdout=subprocess.DEVNULL, stderr=subprocess.DEVNULL)
+
+
 def run_child(mode: str, spec: Any) -> Any:
     """Called from a shard: run one campaign in its own interpreter (libFuzzer owns the process) and return its result."""
     import shutil
